@@ -285,6 +285,33 @@ fn run_scenario(scn: &Scenario, seed: u64, index: u64, timeout: Duration) -> Out
     Outcome { finished, sessions: n, deadlocks, blocked, errors: errs }
 }
 
+/// Runs `body` (everything that calls into the crate) on its own thread and watches it: returns
+/// `(finished, result)`; when a new deadlock is reported or `timeout` passes the thread is leaked.
+fn watched<T: Send + 'static>(name: &str, timeout: Duration, stop_on_deadlock: bool, body: impl FnOnce() -> T + Send + 'static) -> (bool, Option<T>) {
+    let before = vs::deadlocks().len();
+    let slot: Arc<StdMutex<Option<T>>> = Arc::new(StdMutex::new(None));
+    let slot2 = slot.clone();
+    let h = std::thread::Builder::new()
+        .name(name.to_string())
+        .spawn(move || {
+            let r = body();
+            *slot2.lock().unwrap_or_else(|e| e.into_inner()) = Some(r);
+        })
+        .unwrap();
+    let t0 = Instant::now();
+    loop {
+        if h.is_finished() {
+            let _ = h.join();
+            let r = slot.lock().unwrap_or_else(|e| e.into_inner()).take();
+            return (r.is_some(), r);
+        }
+        if (stop_on_deadlock && vs::deadlocks().len() > before) || t0.elapsed() > timeout {
+            return (false, None);
+        }
+        std::thread::sleep(Duration::from_millis(2));
+    }
+}
+
 // ---------------------------------------------------------------------------------------------
 // checking what the instrumented mutex saw
 
@@ -499,8 +526,8 @@ fn wait_for_deadlock(before: usize, ms: u64) -> Vec<vs::DeadlockReport> {
 }
 
 /// host starts a session (holds E, sleeps before locking P) while a session sends to another one
-fn confirm_e_p(table: &Table) -> Result<Vec<vs::DeadlockReport>, String> {
-    let (file, line) = site_line(table, "src/fsm.rs|start_fsm_with_data_and_finish_mode#5").ok_or("site start#5 not in table")?;
+fn confirm_e_p(line: Option<(String, u32)>) -> Result<Vec<vs::DeadlockReport>, String> {
+    let (file, line) = line.ok_or("site start#5 not in table")?;
     let before = vs::deadlocks().len();
     let executor = FsmExecutor::new_without_io_processor();
     let actions = ActionWrapper::new();
@@ -527,8 +554,8 @@ fn confirm_e_p(table: &Table) -> Result<Vec<vs::DeadlockReport>, String> {
 }
 
 /// a session invokes a child (G(parent) held, sleeps before locking P) while its delayed send fires
-fn confirm_g_p(table: &Table) -> Result<Vec<vs::DeadlockReport>, String> {
-    let (file, line) = site_line(table, "src/fsm.rs|start_fsm_with_data_and_finish_mode#5").ok_or("site start#5 not in table")?;
+fn confirm_g_p(line: Option<(String, u32)>) -> Result<Vec<vs::DeadlockReport>, String> {
+    let (file, line) = line.ok_or("site start#5 not in table")?;
     let before = vs::deadlocks().len();
     let executor = FsmExecutor::new_without_io_processor();
     let actions = ActionWrapper::new();
@@ -545,7 +572,7 @@ fn confirm_g_p(table: &Table) -> Result<Vec<vs::DeadlockReport>, String> {
 }
 
 /// `<send eventexpr="v" targetexpr="v"/>`: the session thread locks the cell of `v` twice
-fn confirm_d_d(_table: &Table) -> Result<Vec<vs::DeadlockReport>, String> {
+fn confirm_d_d() -> Result<Vec<vs::DeadlockReport>, String> {
     let before = vs::deadlocks().len();
     let executor = FsmExecutor::new_without_io_processor();
     let actions = ActionWrapper::new();
@@ -676,50 +703,62 @@ fn run_tour(table: &Table, model: &mut Model, rep: &mut Report, seen: &mut Seen,
         rep.evaluations += 1;
         vs::reset();
         let before = vs::deadlocks().len();
-        let mut executor = FsmExecutor::new_without_io_processor();
-        let mut opts = std::collections::HashMap::new();
-        opts.insert("datamodel:x", "1".to_string());
-        executor.set_global_options_from_arguments(&opts);
-        let mut actions = ActionWrapper::new();
-        actions.add_action("twice", Box::new(Twice));
-        let _ = actions.get_map_copy();
-        match start_session(&xml, &executor, &actions, &[], false) {
-            Err(e) => {
+        let events: Vec<String> = events.iter().map(|e| e.to_string()).collect();
+        let (done, res) = watched(&format!("c17-{}", name), Duration::from_secs(10), true, move || -> Result<(bool, bool), String> {
+            let mut executor = FsmExecutor::new_without_io_processor();
+            let mut opts = std::collections::HashMap::new();
+            opts.insert("datamodel:x", "1".to_string());
+            executor.set_global_options_from_arguments(&opts);
+            let mut actions = ActionWrapper::new();
+            actions.add_action("twice", Box::new(Twice));
+            let _ = actions.get_map_copy();
+            let mut s = start_session(&xml, &executor, &actions, &[], false)?;
+            // the peer documents need a peer that exists (an unknown session id is `todo!()` in
+            // FsmExecutor::send_to_session, property C12): every tour session is its own peer
+            let _ = s.sender.send(ev_peer(s.id));
+            std::thread::sleep(Duration::from_millis(15));
+            for e in &events {
+                let _ = executor.send_to_session(s.id, Event::new_simple(e));
+                std::thread::sleep(Duration::from_millis(3));
+            }
+            let _ = s.sender.send(ev(EVENT_CANCEL_SESSION));
+            let ended = join_with_timeout(&mut s, 5000);
+            executor.remove_session(s.id);
+            let mut ex2 = executor.clone();
+            let shutdown_ok = std::panic::catch_unwind(std::panic::AssertUnwindSafe(move || ex2.shutdown())).is_ok();
+            std::thread::sleep(Duration::from_millis(5));
+            Ok((ended, shutdown_ok))
+        });
+        let snap = vs::snapshot();
+        check_snapshot(table, &snap, model, rep, &name, seen);
+        let all = vs::deadlocks();
+        let deadlocks = all[before.min(all.len())..].to_vec();
+        let mut finished = done;
+        match res {
+            Some(Err(e)) => {
                 rep.disagree(json!({"what": "tour document rejected by the reader", "doc": name, "error": e}));
                 continue;
             }
-            Ok(mut s) => {
-                // the peer documents need a peer that exists (an unknown session id is `todo!()` in
-                // FsmExecutor::send_to_session, property C12): every tour session is its own peer
-                let _ = s.sender.send(ev_peer(s.id));
-                std::thread::sleep(Duration::from_millis(15));
-                for e in events {
-                    let _ = executor.send_to_session(s.id, Event::new_simple(e));
-                    std::thread::sleep(Duration::from_millis(3));
-                }
-                let _ = s.sender.send(ev(EVENT_CANCEL_SESSION));
-                let done = join_with_timeout(&mut s, 5000);
-                executor.remove_session(s.id);
-                let mut ex2 = executor.clone();
-                if std::panic::catch_unwind(std::panic::AssertUnwindSafe(move || ex2.shutdown())).is_err() {
+            Some(Ok((ended, shutdown_ok))) => {
+                finished = ended;
+                if !shutdown_ok {
                     rep.count("tour_shutdown_panicked");
                 }
-                std::thread::sleep(Duration::from_millis(5));
-                let snap = vs::snapshot();
-                check_snapshot(table, &snap, model, rep, &name, seen);
-                let all = vs::deadlocks();
-                let out = Outcome { finished: done, sessions: 1, deadlocks: all[before.min(all.len())..].to_vec(), blocked: if done { vec![] } else { vs::blocked() }, errors: vec![] };
-                rep.count(if done { "tour_finished" } else { "tour_hung" });
-                report_deadlocks(table, &out, rep, json!({"tour": name}), confirmed);
             }
+            None => {}
         }
+        let out = Outcome { finished, sessions: 1, deadlocks, blocked: if finished { vec![] } else { vs::blocked() }, errors: vec![] };
+        rep.count(if finished { "tour_finished" } else { "tour_hung" });
+        report_deadlocks(table, &out, rep, json!({"tour": name}), confirmed);
     }
     // host-side API that takes locks
     vs::reset();
-    rufsm::fsm::register_datamodel("c17-null", Box::new(rufsm::datamodel::NullDatamodelFactory {}));
-    let mut q: rufsm::fsm::BlockingQueue<u32> = Default::default();
-    q.enqueue(7);
-    let _ = q.dequeue();
+    let _ = watched("c17-host-api", Duration::from_secs(5), true, || {
+        rufsm::fsm::register_datamodel("c17-null", Box::new(rufsm::datamodel::NullDatamodelFactory {}));
+        let mut q: rufsm::fsm::BlockingQueue<u32> = Default::default();
+        q.enqueue(7);
+        let _ = q.dequeue();
+    });
     let snap = vs::snapshot();
     check_snapshot(table, &snap, model, rep, "host api", seen);
     let _ = std::fs::remove_dir_all(&dir);
@@ -751,18 +790,74 @@ pub fn run(args: &Args, model: &mut Model, table: &Table, rep: &mut Report) {
         run_confirmation(c, table, model, rep, &mut seen, &mut confirmed);
     }
     run_tour(table, model, rep, &mut seen, &mut confirmed);
-    // generated stress scenarios
-    let n = if args.thorough { 1500 } else { 120 };
-    let budget = Duration::from_secs(if args.thorough { 600 } else { 60 });
+    // generated stress scenarios: in worker processes, because about every second scenario really
+    // deadlocks on the unchanged code and its threads (sessions, timers, hosts) can only be leaked
+    let n: u64 = if args.thorough { 1600 } else { 120 };
+    let batch: u64 = if args.thorough { 50 } else { 30 };
+    let parallel = if args.thorough { 4 } else { 2 };
+    let budget = Duration::from_secs(if args.thorough { 660 } else { 75 });
     let t0 = Instant::now();
-    let mut ran = 0;
-    for i in 0..n {
-        if t0.elapsed() > budget {
-            rep.count("stopped_by_time_budget");
+    let mut ran: u64 = 0;
+    let mut next: u64 = 0;
+    let mut children: Vec<(std::process::Child, String, u64, u64)> = Vec::new();
+    let mut crashed = 0u64;
+    let exe = std::env::current_exe().unwrap();
+    loop {
+        while children.len() < parallel && next < n && t0.elapsed() < budget {
+            let (from, to) = (next, (next + batch).min(n));
+            next = to;
+            let out = format!("{}.child-{}-{}.json", args.out, from, to);
+            let _ = std::fs::remove_file(&out);
+            let c = std::process::Command::new(&exe)
+                .args(["c17", "--model", &args.model, "--out", &out, "--seed", &args.seed.to_string(), "--tier", if args.thorough { "thorough" } else { "quick" }])
+                .args(["c17-child", &from.to_string(), &to.to_string()])
+                .stdout(std::process::Stdio::null())
+                .stderr(std::process::Stdio::null())
+                .spawn();
+            match c {
+                Ok(c) => children.push((c, out, from, to)),
+                Err(e) => {
+                    rep.disagree(json!({"what": "cannot start a stress worker process", "error": e.to_string()}));
+                    next = n;
+                }
+            }
+        }
+        if children.is_empty() {
+            if next < n {
+                rep.count("stopped_by_time_budget");
+            }
             break;
         }
-        run_generated(args.seed, i, args.thorough, table, model, rep, &mut seen, &mut confirmed);
-        ran += 1;
+        let mut i = 0;
+        while i < children.len() {
+            let done = matches!(children[i].0.try_wait(), Ok(Some(_)));
+            let too_long = t0.elapsed() > budget + Duration::from_secs(120);
+            if done || too_long {
+                let (mut c, out, from, to) = children.remove(i);
+                if too_long {
+                    let _ = c.kill();
+                }
+                let _ = c.wait();
+                match std::fs::read_to_string(&out).ok().and_then(|t| serde_json::from_str::<Value>(&t).ok()) {
+                    Some(v) => {
+                        ran += to - from;
+                        merge_child(&v, rep, &mut seen, &mut confirmed);
+                    }
+                    None => {
+                        crashed += 1;
+                        rep.count("stress_worker_without_report");
+                        rep.extra.insert(format!("worker_{}_{}", from, to), json!("no report (killed or crashed)"));
+                    }
+                }
+                let _ = std::fs::remove_file(&out);
+            } else {
+                i += 1;
+            }
+        }
+        std::thread::sleep(Duration::from_millis(20));
+    }
+    if ran == 0 && crashed > 0 {
+        rep.disagree(json!({"what": "no stress worker process produced a report", "workers": crashed}));
     }
     let platform_sites = table.blocking_sites().count();
     rep.extra.insert(
@@ -773,13 +868,79 @@ pub fn run(args: &Args, model: &mut Model, table: &Table, rep: &mut Report) {
     );
 }
 
+/// worker: scenarios [from, to) of the seeded stream; everything the parent needs goes into the report
+pub fn run_child(args: &Args, model: &mut Model, table: &Table, rep: &mut Report) {
+    let from: u64 = args.extra.get(1).and_then(|s| s.parse().ok()).unwrap_or(0);
+    let to: u64 = args.extra.get(2).and_then(|s| s.parse().ok()).unwrap_or(0);
+    let mut seen = Seen { sites: BTreeSet::new(), edges: BTreeSet::new(), records: BTreeSet::new() };
+    let mut confirmed: BTreeMap<String, u64> = BTreeMap::new();
+    vs::clear_delays();
+    for i in from..to {
+        run_generated(args.seed, i, args.thorough, table, model, rep, &mut seen, &mut confirmed);
+        // keep what was found so far on disk: a later scenario may take the process down
+        rep.extra.insert("child".into(), json!({"sites": seen.sites, "edges": seen.edges, "records": seen.records, "deadlocks_by_cycle": confirmed, "done_to": i + 1}));
+        rep.write(&args.out);
+    }
+}
+
+fn merge_child(v: &Value, rep: &mut Report, seen: &mut Seen, confirmed: &mut BTreeMap<String, u64>) {
+    rep.evaluations += v["evaluations"].as_u64().unwrap_or(0);
+    if let Some(d) = v["distribution"].as_object() {
+        for (k, n) in d {
+            if k != "disagreements" && k != "oracle_failures" {
+                rep.add(k, n.as_u64().unwrap_or(0));
+            }
+        }
+    }
+    rep.add("worker_model_requests", v["model_requests"].as_u64().unwrap_or(0));
+    for d in v["disagreements"].as_array().unwrap_or(&vec![]) {
+        rep.disagree(d.clone());
+    }
+    for o in v["oracle_failures"].as_array().unwrap_or(&vec![]) {
+        let sig = o["signature"].as_str().unwrap_or("C17:?").to_string();
+        rep.oracle_fail(&sig, o.clone());
+    }
+    for x in v["samples"].as_array().unwrap_or(&vec![]) {
+        rep.sample(x.clone());
+    }
+    let c = &v["extra"]["child"];
+    for (name, set) in [("sites", &mut seen.sites), ("edges", &mut seen.edges), ("records", &mut seen.records)] {
+        for x in c[name].as_array().unwrap_or(&vec![]) {
+            if let Some(s) = x.as_str() {
+                set.insert(s.to_string());
+            }
+        }
+    }
+    for r in c["records"].as_array().unwrap_or(&vec![]) {
+        if let Some(s) = r.as_str() {
+            rep.nontrivial.insert(s.to_string());
+        }
+    }
+    if let Some(m) = c["deadlocks_by_cycle"].as_object() {
+        for (k, n) in m {
+            *confirmed.entry(k.clone()).or_insert(0) += n.as_u64().unwrap_or(0);
+        }
+    }
+}
+
 fn run_confirmation(c: &str, table: &Table, model: &mut Model, rep: &mut Report, seen: &mut Seen, confirmed: &mut BTreeMap<String, u64>) {
     rep.evaluations += 1;
     vs::reset();
-    let r = match c {
-        "E>P>E" => confirm_e_p(table),
-        "G>P>G" => confirm_g_p(table),
-        _ => confirm_d_d(table),
+    let before = vs::deadlocks().len();
+    let line = site_line(table, "src/fsm.rs|start_fsm_with_data_and_finish_mode#5");
+    let c2 = c.to_string();
+    let (_fin, res) = watched(&format!("c17-confirm-{}", c), Duration::from_secs(8), false, move || match c2.as_str() {
+        "E>P>E" => confirm_e_p(line),
+        "G>P>G" => confirm_g_p(line),
+        _ => confirm_d_d(),
+    });
+    vs::clear_delays();
+    // whatever deadlocked, also when the set-up itself got stuck
+    let all = vs::deadlocks();
+    let found_now = all[before.min(all.len())..].to_vec();
+    let r: Result<Vec<vs::DeadlockReport>, String> = match res {
+        Some(Err(e)) => Err(e),
+        _ => Ok(found_now),
     };
     let snap = vs::snapshot();
     check_snapshot(table, &snap, model, rep, &format!("confirm {}", c), seen);
